@@ -369,6 +369,11 @@ class Executor:
             if not v.opaque:
                 return Cond.const(bool(v.items))
             return Cond("opq", f"nonempty:list#{v.lid}")
+        if isinstance(v, ObjV) and v.abstract:
+            # an arbitrary user-defined object (scorer, detector): its class may define __bool__ / __len__ (a table cost
+            # of length 0 before fit), so its truth value is not known - `x or default` is not `default if x is None`
+            self.emit("object_truth", node, obj=v)
+            return Cond("opq", f"truth:{v.key}")
         if isinstance(v, (ObjV, FuncV, ClassV, ExtV, ClosureV)):
             return Cond.const(True)
         if isinstance(v, OpaqueV):
@@ -471,8 +476,45 @@ class Executor:
 
     # ----------------------------------------------------------- statements
     def exec_block(self, stmts, frame):
-        for st in stmts:
+        i = 0
+        while i < len(stmts):
+            st = stmts[i]
+            if i + 1 < len(stmts):
+                comp = self._append_loop_as_comprehension(st, stmts[i + 1])
+                if comp is not None:
+                    # `v = []; for t in it: [if c:] v.append(e)` is the list comprehension `v = [e for t in it if c]`
+                    # (one canonical form for both spellings; the loop variable's leak is not used by the analysed code)
+                    self.exec_stmt(comp, frame)
+                    i += 2
+                    continue
             self.exec_stmt(st, frame)
+            i += 1
+
+    @staticmethod
+    def _append_loop_as_comprehension(init, loop):
+        if not (isinstance(init, ast.Assign) and len(init.targets) == 1 and isinstance(init.targets[0], ast.Name) and isinstance(init.value, ast.List) and not init.value.elts):
+            return None
+        if not isinstance(loop, ast.For) or loop.orelse:
+            return None
+        name = init.targets[0].id
+        body, conds = loop.body, []
+        while len(body) == 1 and isinstance(body[0], ast.If) and not body[0].orelse:
+            conds.append(body[0].test)
+            body = body[0].body
+        if len(body) != 1 or not isinstance(body[0], ast.Expr) or not isinstance(body[0].value, ast.Call):
+            return None
+        call = body[0].value
+        if not (isinstance(call.func, ast.Attribute) and call.func.attr == "append" and isinstance(call.func.value, ast.Name) and call.func.value.id == name and len(call.args) == 1 and not call.keywords):
+            return None
+        mentioned = {n.id for part in [call.args[0], loop.iter, loop.target] + conds for n in ast.walk(part) if isinstance(n, ast.Name)}
+        if name in mentioned:
+            return None
+        comp = ast.ListComp(elt=call.args[0], generators=[ast.comprehension(target=loop.target, iter=loop.iter, ifs=conds, is_async=0)])
+        new = ast.Assign(targets=[ast.Name(id=name, ctx=ast.Store())], value=comp)
+        ast.copy_location(new, loop)
+        ast.copy_location(comp, loop)
+        ast.fix_missing_locations(new)
+        return new
 
     def exec_stmt(self, st, frame):
         m = getattr(self, "st_" + type(st).__name__, None)
